@@ -296,7 +296,7 @@ func (g *G) UserName() string {
 }
 
 func (g *G) Email() string {
-	return rapid.StringMatching(`[a-zA-Z0-9_.+-]{1,8}@[a-z0-9]([a-z0-9-]{0,5}[a-z0-9])?(\.[a-z0-9]{1,4}){0,2}\.[a-zA-Z]{2,5}`).Draw(g.T, "email")
+	return rapid.StringMatching(`[a-zA-Z0-9_][a-zA-Z0-9_.+-]{0,7}@[a-z0-9]([a-z0-9-]{0,5}[a-z0-9])?(\.[a-z0-9]{1,4}){0,2}\.[a-zA-Z]{2,5}`).Draw(g.T, "email")
 }
 
 // BranchName draws from a small pool whose members are prefixes of each other.
